@@ -79,6 +79,45 @@ def audit():
             raise HarnessError("seam moved: gcoder.GCode.%s" % nm)
 
 
+_class_state = {}
+
+
+def _restore_class_state(m):
+    """Runs share one process: plain (non-callable) class attributes of the classes under test
+    are put back to their import-time values before every run, so that state a run leaves on a
+    class (a mutated class-level list, a flag set on the class) cannot leak into the next one
+    and make a failure irreproducible in a fresh interpreter."""
+    import copy
+    classes = [m["pw"].PrintrunWriter, m["pc"].printcore, m["dev"].Device, m["gc"].GCode, m["fw"].FileWriter,
+               m["core"].GCodeCore]
+    for cls in classes:
+        key = cls.__module__ + "." + cls.__qualname__
+        if key not in _class_state:
+            snap = {}
+            for name, val in list(vars(cls).items()):
+                if name.startswith("__") or callable(val) or isinstance(val, (property, staticmethod, classmethod)):
+                    continue
+                if hasattr(val, "__get__") and not isinstance(val, (int, float, str, bytes, bool, list, dict, set, tuple, type(None))):
+                    continue          # slots / descriptors
+                try:
+                    snap[name] = copy.deepcopy(val)
+                except Exception:
+                    pass
+            _class_state[key] = (set(n for n in vars(cls)), snap)
+            continue
+        names0, snap = _class_state[key]
+        for name in [n for n in vars(cls) if n not in names0 and not n.startswith("__")]:
+            try:
+                delattr(cls, name)       # an attribute a previous run created on the class
+            except (AttributeError, TypeError):
+                pass
+        for name, val in snap.items():
+            try:
+                setattr(cls, name, copy.deepcopy(val))
+            except (AttributeError, TypeError):
+                pass
+
+
 class SimQueue:
     def __init__(self, k, maxsize=0):
         self.k = k
@@ -170,6 +209,7 @@ def install(k, env):
     for nm in ("current_e_multi", "total_e_multi", "max_e_multi", "offset_e_multi",
                "filament_length_multi"):
         setattr(gc.GCode, nm, [0])
+    _restore_class_state(m)
     k.trace_files |= {pc.__file__, dev.__file__, pw.__file__}
     if k.policy == "hot":
         from .kernel import hot_lines
